@@ -40,7 +40,7 @@ import re
 import subprocess
 from pathlib import Path
 
-VERSION = "11"
+VERSION = "12"
 
 TUS = [
     "src/core/Node.cpp", "src/network/SessionManager.cpp", "src/daemon/ControlServer.cpp",
@@ -879,6 +879,11 @@ def lean_text(tree: dict) -> str:
     out.append(f"def controlReadTimeout : Bool := {'true' if flags.get('controlReadTimeout') else 'false'}\n")
     out.append("/-- … and SO_SNDTIMEO (a client that never reads its response)? -/")
     out.append(f"def controlWriteTimeout : Bool := {'true' if flags.get('controlWriteTimeout') else 'false'}\n")
+    out.append("/-- do the recv / send loops that run on the accept threads go round again on a timeout-class error "
+               "(EAGAIN / EWOULDBLOCK / ETIMEDOUT / EINTR followed by `continue`)?  That re-arms the wait and cancels the bound. -/")
+    for name in ("controlLineReadRetries", "controlPayloadReadRetries", "controlWriteRetries", "transportReadRetries"):
+        out.append(f"def {name} : Bool := {'true' if flags.get(name) else 'false'}")
+    out.append("def controlReadRetriesOnTimeout : Bool := controlLineReadRetries || controlPayloadReadRetries\n")
     out.append("end EphVerif.Gen.C35\n")
     return "\n".join(out)
 
@@ -886,7 +891,21 @@ def lean_text(tree: dict) -> str:
 def read_flags(repo: Path) -> tuple[dict, list[str]]:
     """(T) by source scan: are the blocking reads of the two accept loops bounded?"""
     gaps: list[str] = []
-    flags = {"transportPeerIdTimeout": False, "controlReadTimeout": False, "controlWriteTimeout": False}
+    flags = {"transportPeerIdTimeout": False, "controlReadTimeout": False, "controlWriteTimeout": False,
+             "controlLineReadRetries": False, "controlPayloadReadRetries": False, "controlWriteRetries": False,
+             "transportReadRetries": False}
+
+    def retries(text: str, fn_pattern: str, what: str) -> bool:
+        """does the recv/send loop of this function go round again when the call fails with a timeout-class error
+        (a `continue` in a body that tests EAGAIN / EWOULDBLOCK / ETIMEDOUT / EINTR)?  SO_RCVTIMEO / SO_SNDTIMEO expiry is
+        reported as EAGAIN, so such a retry re-arms the wait and cancels the bound."""
+        h = re.search(fn_pattern + r"\s*\([^;{}]*\)\s*(?:const\s*)?\{(.*?)\n\}", text, flags=re.S)
+        if not h:
+            gaps.append(f"{what}: function body not found")
+            return False
+        body = h.group(1)
+        return bool(re.search(r"\b(EAGAIN|EWOULDBLOCK|ETIMEDOUT|EINTR|WSAEWOULDBLOCK|WSAETIMEDOUT)\b", body)) and \
+            bool(re.search(r"\bcontinue\s*;", body))
 
     def strip(text: str) -> str:
         text = re.sub(r"/\*.*?\*/", " ", text, flags=re.S)
@@ -900,6 +919,7 @@ def read_flags(repo: Path) -> tuple[dict, list[str]]:
             body = m.group(1)
             a, b = body.find("set_recv_timeout"), body.find("recv_all")
             flags["transportPeerIdTimeout"] = a >= 0 and (b < 0 or a < b)
+        flags["transportReadRetries"] = retries(sm, r"bool\s+SessionManager::recv_all", "SessionManager::recv_all")
     except OSError as ex:
         gaps.append(f"SessionManager.cpp: {ex}")
     try:
@@ -919,6 +939,9 @@ def read_flags(repo: Path) -> tuple[dict, list[str]]:
                     text += h.group(1)
             flags["controlReadTimeout"] = "SO_RCVTIMEO" in text
             flags["controlWriteTimeout"] = "SO_SNDTIMEO" in text
+        flags["controlLineReadRetries"] = retries(cs, r"bool\s+recv_line", "ControlServer recv_line")
+        flags["controlPayloadReadRetries"] = retries(cs, r"bool\s+recv_exact", "ControlServer recv_exact")
+        flags["controlWriteRetries"] = retries(cs, r"bool\s+send_all", "ControlServer send_all")
     except OSError as ex:
         gaps.append(f"ControlServer.cpp: {ex}")
     return flags, gaps
